@@ -310,6 +310,26 @@ impl Engine for KpSim {
             // around the batch boundary: mostly plain coordinate lines (cheap to generate),
             // a few specials; the number of *coordinate* lines is what matters
             let specials = rng.chance(0.3);
+            // a long run of lines that are not coordinates (a header of comments, a gap of
+            // blank lines) somewhere in a large input: at least one internal batch worth
+            if rng.chance(0.2) {
+                let run = *rng.pick(&[BATCH, BATCH + 1, 2 * BATCH - 1, 2 * BATCH + 3]);
+                let at_start = rng.chance(0.5);
+                let filler = |i: usize| if i % 7 == 0 { String::new() } else { format!("# header line {}", i) };
+                if at_start {
+                    for i in 0..run {
+                        lines.push(filler(i));
+                    }
+                } else {
+                    for i in 0..n / 2 {
+                        lines.push(format!("{} {}", 55 + (i % 3), 12 + (i % 5)));
+                    }
+                    for i in 0..run {
+                        lines.push(filler(i));
+                    }
+                }
+            }
+            let n = n + lines.len();
             while lines.len() < n {
                 if specials && rng.chance(0.001) {
                     lines.push(gen_line(&mut rng, geographic, max_cols));
@@ -323,6 +343,7 @@ impl Engine for KpSim {
                 lines.push(gen_line(&mut rng, geographic, max_cols));
             }
         }
+        let n = lines.len();
         // spreading
         let nofile_limit = if !big && rng.chance(0.02) { Some(20u16) } else { None };
         let n_parts = if nofile_limit.is_some() {
